@@ -185,6 +185,53 @@ def run(fx, rep):
         okk = (si, sf) in ((1, 2), (2, 1)) and ((si == 1 and direct and not reversed_) or (si == 2 and reversed_ and not direct))
         rep.check(okk, 'R5', 'partial_cmp/%s/int-side=%s' % (F.norm_callee(t).rsplit('::', 1)[-1], {1: 'self', 2: 'other'}.get(si, '?')), F.loc_of(t['span']),
                   'oriented correctly', 'mixed comparison is mis-oriented: integer side=%s float side=%s reversed=%s direct=%s' % (si, sf, reversed_, direct))
+    # ---------------- R6 same-kind arms of partial_cmp
+    rep.rule('R6', 'same-kind arms of partial_cmp: (self payload, other payload) compared by the kind\'s own order (Ord::cmp; IEEE partial_cmp for doubles)')
+    SAME = {'Int': r'impl std::cmp::Ord for i64>::cmp$', 'UInt': r'impl std::cmp::Ord for u64>::cmp$', 'Float': r'impl std::cmp::PartialOrd for f64>::partial_cmp$',
+            'Bool': r'impl std::cmp::Ord for bool>::cmp$', 'String': r'^<std::sync::Arc(<.*>)? as std::cmp::Ord>::cmp$', 'Bytes': r'^<std::sync::Arc(<.*>)? as std::cmp::Ord>::cmp$',
+            'Duration': r'^<chrono::TimeDelta as std::cmp::Ord>::cmp$', 'Timestamp': r'^<chrono::DateTime(<.*>)? as std::cmp::Ord>::cmp$'}
+    def payload(ts):
+        out = set()
+        for x in ts:
+            y, var = x, None
+            while y[0] in ('f', 'dc'):
+                if y[0] == 'dc':
+                    var = y[2]
+                y = y[1]
+            out.add((y[1], var) if y[0] == 'param' and var else None)
+        return out.pop() if len(out) == 1 else None
+    n6 = 0
+    for bi, t in pcb.calls():
+        if len(t['args']) != 2 or (F.norm_callee(t) or '').startswith('cel_interpreter::objects::cmp_'):
+            continue
+        p0, p1 = payload(ppv.of_operand(t['args'][0])), payload(ppv.of_operand(t['args'][1]))
+        if not p0 or not p1 or p0[1] != p1[1]:
+            continue
+        n6 += 1
+        v = p0[1]
+        rc = F.resolved_callee(t) or F.norm_callee(t) or ''
+        okk = v in SAME and re.search(SAME[v], rc) and (p0[0], p1[0]) == (1, 2)
+        rep.check(bool(okk), 'R6', 'same-kind/%s' % v, F.loc_of(t['span']), '%s payloads compared (self, other) by %s' % (v, rc),
+                  '(%s, %s) arm compares (%s, %s) with %s; expected (self, other) with %s%s' % (v, v, {1: 'self', 2: 'other'}.get(p0[0]), {1: 'self', 2: 'other'}.get(p1[0]), rc, SAME.get(v, '?'),
+                                                                                         ': f64::total_cmp orders -0.0 below 0.0 and NaN above everything, IEEE comparison does not' if 'total_cmp' in rc else ''))
+    epv = F.Prov(eqb)
+    for bi, t in eqb.calls():
+        if len(t['args']) != 2 or (F.norm_callee(t) or '').startswith('cel_interpreter::objects::cmp_'):
+            continue
+        p0, p1 = payload(epv.of_operand(t['args'][0])), payload(epv.of_operand(t['args'][1]))
+        if not p0 or not p1 or p0[1] != p1[1]:
+            continue
+        n6 += 1
+        nc = F.norm_callee(t) or ''
+        rep.check(nc == 'std::cmp::PartialEq::eq' and {p0[0], p1[0]} == {1, 2}, 'R6', 'eq/same-kind/%s' % p0[1], F.loc_of(t['span']), '%s payloads compared by PartialEq::eq' % p0[1],
+                  '(%s, %s) arm of eq compares its payloads with %s, expected PartialEq::eq' % (p0[1], p0[1], nc))
+    for body in (eqb, pcb):
+        for bi, t in body.calls():
+            nc = F.norm_callee(t) or ''
+            if re.match(r'^core::f64::<impl f64>::(to_bits|total_cmp|to_ne_bytes|to_le_bytes|to_be_bytes)$', nc):
+                rep.violation('R6', 'bitwise-float/%s/%s' % ('eq' if body is eqb else 'partial_cmp', nc.rsplit('::', 1)[-1]), F.loc_of(t['span']),
+                              '%s compares doubles by representation: -0.0 and 0.0 become different (and NaN equal to itself), unlike IEEE ==, < used by CEL' % nc)
+    rep.floor('R6', 12)
     # ---------------- R4
     for fn, keep in (('max', 1), ('min', -1)):
         fb = fx.body('cel_interpreter::functions::' + fn)
